@@ -164,6 +164,13 @@ def history_actor(actor, case):
                 getattr(actor, ms[int(op[1]) % len(ms)])()
         elif op[0] == "log_std":
             set_log_std(actor, op[1])
+        elif op[0] in ("eval_fwd", "train_fwd"):          # a forward pass in evaluation / training mode (mode is left as set)
+            actor.eval() if op[0] == "eval_fwd" else actor.train()
+            with torch.no_grad():
+                torch.manual_seed(case["seed"] + 17)
+                actor(torch.as_tensor(obs_pool(case["seed"])[:2]))
+        elif op[0] == "load":                              # load_state_dict of a state dict with another log_std into the SAME object
+            load_other_log_std(actor, op[1])
         elif op[0] == "sd":
             twin = actor.clone()
             with torch.no_grad():
@@ -176,6 +183,16 @@ def history_actor(actor, case):
     return actor
 
 
+def load_other_log_std(actor, v) -> None:
+    import copy
+    sd = copy.deepcopy(actor.state_dict())
+    keys = [k for k in sd if k.endswith("log_std")]
+    for k in keys:
+        d = sd[k].shape[-1]
+        sd[k] = torch.tensor([[float(v) - 0.25 * (i % 4) for i in range(d)]], dtype=sd[k].dtype).reshape(sd[k].shape)
+    actor.load_state_dict(sd)
+
+
 def history_agent(ag, case):
     """ops: ["clone"], ["amut", seed, k] (Mutations.architecture_mutate; k = None: the library samples the method,
     else the k-th method the policy advertises), ["log_std", v]"""
@@ -185,6 +202,21 @@ def history_agent(ag, case):
         elif op[0] == "log_std":
             for actor in (ag.actors if hasattr(ag, "actors") else [ag.actor]):
                 set_log_std(actor, op[1])
+        elif op[0] == "load":
+            for actor in (ag.actors if hasattr(ag, "actors") else [ag.actor]):
+                load_other_log_std(actor, op[1])
+        elif op[0] == "get_action":                        # a rollout step (the algorithms run the actor in eval mode here)
+            pool = obs_pool(case["seed"])
+            torch.manual_seed(case["seed"] + 17)
+            if hasattr(ag, "actors"):
+                ag.get_action(obs={a: pool[[k, k + 1]] for k, a in enumerate(ag.agent_ids)}, infos=None)
+            else:
+                ag.get_action(pool[:2])
+        elif op[0] == "learn":                             # optimizer steps through learn() on a short rollout
+            algo = "IPPO" if hasattr(ag, "actors") else "PPO"
+            batch = agents.make_batch(ag, algo, "vector", n=16, seed=case["seed"] + 19, num_envs=2)
+            agents.seed_all(case["seed"] + 20)
+            ag.learn(batch)
         elif op[0] == "amut":
             import agilerl.hpo.mutation as M
             m = M.Mutations(no_mutation=0, architecture=1, new_layer_prob=0.5, parameters=0, activation=0, rl_hp=0,
@@ -601,7 +633,12 @@ def build_actor(case):
                             action_std_init=float(case.get("std_init", 0.0)),
                             squash_output=bool(case.get("squash", False)))
     tune(actor, case)
-    return history_actor(actor, case)
+    actor = history_actor(actor, case)
+    if case.get("mode") == "eval":
+        actor.eval()
+    elif case.get("mode") == "train":
+        actor.train()
+    return actor
 
 
 def run_actor(case):
@@ -706,7 +743,7 @@ def run_actor(case):
             problems.append(f"action_log_prob has shape {tuple(lp_tail.shape)} for {B} stored actions")
         if squash and row["ent"] is not None:
             problems.append(f"row {b}: squash_output=True but the actor reports an entropy ({row['ent']!r}) as an unsquashed Gaussian would")
-        if lp_bad is not None and lp_bad[1][b] and not float(lp_bad[0][b]) < math.log(1e-30):
+        if lp_bad is not None and lp_bad[1][b] and not dead_row(spec, row["mask"]) and not float(lp_bad[0][b]) < math.log(1e-30):
             problems.append(f"row {b}: a masked action has probability exp({float(lp_bad[0][b])!r}) >= 1e-30")
         rows.append(row)
     if fwd_vs_head and rows:
@@ -755,7 +792,8 @@ def build_ppo(case):
     agents.seed_all(case["seed"])
     ag = PPO(obs_space(), space_of(case["spec"]), net_config=net_config(squash),
              action_std_init=float(case.get("std_init", 0.0)), batch_size=int(case.get("batch_size", 8)),
-             learn_step=8, update_epochs=int(case.get("epochs", 1)), device="cpu", accelerator=None)
+             learn_step=8, update_epochs=int(case.get("epochs", 1)), device="cpu", accelerator=None,
+             **({"lr": float(case["lr"])} if case.get("lr") else {}))
     tune(ag.actor, case)
     return history_agent(ag, case)
 
@@ -840,7 +878,7 @@ def build_ippo(case):
     ag = IPPO(observation_spaces=[obs_space() for _ in ids], action_spaces=[space_of(specs[i]) for i in range(len(ids))],
               agent_ids=list(ids), net_config=net_config(False), action_std_init=float(case.get("std_init", 0.0)),
               batch_size=int(case.get("batch_size", 8)), learn_step=8, update_epochs=int(case.get("epochs", 1)),
-              device="cpu", accelerator=None)
+              device="cpu", accelerator=None, **({"lr": float(case["lr"])} if case.get("lr") else {}))
     for actor in ag.actors:
         tune(actor, case)
     return history_agent(ag, case)
@@ -1018,6 +1056,9 @@ def eval_case(chk: Check, case, n_draws: int = 0):
             rows, problems = run_actor(case)
             spec = case["spec"]
             for b, row in enumerate(rows):
+                if dead_row(spec, row.get("mask")):
+                    tags.append("dead-row")
+                    continue
                 row_lines(L, spec, row, f"row {b}: ")
                 lp_t = oracle_row(spec, row, problems, f"row {b}: ")
                 if lp_t is not None and "lp_full" in row:
@@ -1040,6 +1081,9 @@ def eval_case(chk: Check, case, n_draws: int = 0):
             rows, problems = run_ppo(case)
             spec = case["spec"]
             for b, row in enumerate(rows):
+                if dead_row(spec, row.get("mask")):
+                    tags.append("dead-row")
+                    continue
                 row_lines(L, spec, row, f"PPO row {b}: ")
                 oracle_row(spec, row, problems, f"PPO row {b}: ")
                 tail_row(L, spec, row, problems, f"PPO row {b}: ")
@@ -1052,6 +1096,9 @@ def eval_case(chk: Check, case, n_draws: int = 0):
             groups = []
             for a, (spec, rows) in out.items():
                 for b, row in enumerate(rows):
+                    if dead_row(spec, row.get("mask")):
+                        tags.append("dead-row")
+                        continue
                     row_lines(L, spec, row, f"IPPO {a} row {b}: ")
                     oracle_row(spec, row, problems, f"IPPO {a} row {b}: ")
                 groups.append((spec, rows))
@@ -1154,10 +1201,14 @@ def actor_history(rng):
             ops.append(["clone"])
         elif r < 0.75:
             ops.append(["mut", rng.randrange(N_METHODS)])
-        elif r < 0.9:
+        elif r < 0.85:
             ops.append(["log_std", rng.choice([-1.0, -0.5, 0.25, 1.0])])
-        else:
+        elif r < 0.9:
             ops.append(["sd"])
+        else:
+            ops.append(["load", rng.choice([-1.0, -0.5, 0.25])])
+        if rng.random() < 0.5:                             # interleave forwards in either mode
+            ops.insert(rng.randrange(len(ops) + 1), [rng.choice(["eval_fwd", "eval_fwd", "train_fwd"])])
     return ops
 
 
@@ -1171,15 +1222,43 @@ def agent_history(rng):
             ops.append(["clone"])
         elif r < 0.85:
             ops.append(["amut", rng.randrange(1 << 20), None if rng.random() < 0.4 else rng.randrange(N_METHODS)])
-        else:
+        elif r < 0.93:
             ops.append(["log_std", rng.choice([-1.0, -0.5, 0.25])])
+        else:
+            ops.append(["load", rng.choice([-1.0, -0.5, 0.25])])
+        if rng.random() < 0.5:
+            ops.insert(rng.randrange(len(ops) + 1), ["get_action"])
     return ops
+
+
+def dead_row(spec, mask01) -> bool:
+    """a categorical component without any legal outcome: the property says nothing about such a row (there is no
+    legal action to report); it is never judged, only its neighbours in the batch are"""
+    if mask01 is None or spec["kind"] not in ("discrete", "multidiscrete"):
+        return False
+    off = 0
+    for nk in nvec_of(spec):
+        if not any(mask01[off:off + nk]):
+            return True
+        off += nk
+    return False
+
+
+def kill_component(rng, spec, m):
+    nvec = nvec_of(spec)
+    k = rng.randrange(len(nvec))
+    off = sum(nvec[:k])
+    return m[:off] + [0] * nvec[k] + m[off + nvec[k]:]
 
 
 def gen_rows(rng, spec, masked: bool, nrows=None):
     n = nrows or rng.randint(2, 4)
     idx = rng.sample(range(POOL), n)
-    return [[i, random_mask(rng, spec) if masked else None] for i in idx]
+    rows = [[i, random_mask(rng, spec) if masked else None] for i in idx]
+    if masked and spec["kind"] in ("discrete", "multidiscrete") and rng.random() < 0.3:
+        j = rng.randrange(n)                               # one exhausted row next to ordinarily masked rows
+        rows[j][1] = kill_component(rng, spec, rows[j][1])
+    return rows
 
 
 def common_fields(rng, spec):
@@ -1209,10 +1288,13 @@ def exhaustive_mask_cases(rng):
     for n in (2, 3, 4):
         spec = {"kind": "discrete", "n": n}
         ms = all_masks(n)
+        ms.insert(rng.randrange(len(ms)), [0] * n)          # an exhausted row among them
         cases.append({"suite": "actor", "spec": spec, "rows": [[i % POOL, m] for i, m in enumerate(ms)],
                       "seed": rng.randrange(1 << 30), "scale": 4.0})
     spec = {"kind": "multidiscrete", "nvec": [2, 3]}
     ms = [a + b for a in all_masks(2) for b in all_masks(3)]
+    ms.insert(5, [0, 0, 1, 0, 1])
+    ms.insert(11, [1, 1, 0, 0, 0])
     cases.append({"suite": "actor", "spec": spec, "rows": [[i % POOL, m] for i, m in enumerate(ms)],
                   "seed": rng.randrange(1 << 30), "scale": 4.0})
     for nv in ([2, 2], [3, 3]):
@@ -1270,6 +1352,11 @@ def gen_cases(chk: Check):
              "scale": rng.choice([1.0, 4.0]), "std_init": rng.choice([0.0, 0.5, 0.05, 2.5]), "history": agent_history(rng)}
         if masks:
             c["masks"] = {a: [random_mask(rng, specs[k]) for _ in rows] for k, a in enumerate(ids)}
+            if rng.random() < 0.4:                         # an exhausted row for one agent next to ordinary rows
+                k = rng.randrange(len(ids))
+                if specs[k]["kind"] in ("discrete", "multidiscrete"):
+                    j = rng.randrange(len(rows))
+                    c["masks"][ids[k]][j] = kill_component(rng, specs[k], c["masks"][ids[k]][j])
         cases.append(c)
     one_dim = [{"kind": "box", "d": 1}, {"kind": "multibinary", "n": 1}, {"kind": "multidiscrete", "nvec": [3]}]
     for i in range(16 if quick else 50):                      # what learn() re-evaluates
